@@ -556,6 +556,8 @@ func do(op string, args []string) {
 			return []string{hx.U(s.NextFileId(getu(1)))}
 		case "race":
 			return race(args)
+		case "hbrace":
+			return hbrace(args)
 		}
 		return []string{"unknown-op"}
 	})
@@ -811,6 +813,9 @@ func main() {
 			do("race", s("mem", 8, 200, r.Intn(1000)))
 			do("race", s("etcd", 8, 200, r.Intn(1000)))
 		}
+	}
+	for k := 0; k < hbRounds(a); k++ {
+		genHbRace(r)
 	}
 	drainAll()
 }
